@@ -84,6 +84,14 @@
       carries no record of type 250), `C10_audit_reaches_decoding` (tags `panic`, `no-response`,
       `undecodable` of `auditResponse` never arise: C01, C03, and the final writer is `Good`).
 
+      `C10_decoded_fields_of_run` (rows 1 and 2, decoded field by field with the specification's own
+      RFC 8945 §4.2 reader `Spec.Tsig.parseRdata` — round trip `ServerContent.parseRdata_tsigRdata` —
+      and with the header: RCODE of the table / verdict, AA and TC clear, fudge 300, original ID, error,
+      time signed, other data = server time iff BADTIME, MAC): the decoded facts behind the audit tags
+      `rcode-*`, `tc-in-error`, `aa-in-error`, `fudge-*`, `original-id`, `tsig-error-*`, `other-data`,
+      `badtime-other`, `tsig-class-ttl`, `mac-not-empty`; what separates them from the audit's clauses
+      is (1a)–(1c) below (the audit's own view of the request).
+
   `C10_full` (below) is the end-to-end statement "the executable C10 audit finds nothing wrong with
   the response the model produces, for every configuration, request and clock".
   Recorded amendment of the statement: `C10_full` now carries what the library API guarantees —
@@ -764,7 +772,7 @@ theorem C10_decoded_table_of_run (cfg : Cfg) (hcfg : ServerSafety.CfgWF cfg) (tr
   refine ⟨?_, ?_, ?_, ?_⟩
   · have h3 := ServerContent.signed_error_final_of_run cfg tr now bufLen req hbuf hpay hp16 hr t mw r' question hrun
     intro nowT kn an rc mode rr hnow hkn han hrep hfit b hb d hd
-    obtain ⟨F, mac, hf, hG, hts, he, hmac⟩ := h3 nowT kn an rc mode rr hnow hkn han hrep hfit b hb
+    obtain ⟨F, mac, hf, hG, hts, he, hmac, _⟩ := h3 nowT kn an rc mode rr hnow hkn han hrep hfit b hb
     obtain ⟨hq1, hq2, hq3⟩ := qBody_norecs (Spec.Server.specScanWith (catKind cfg) cfg.payload req).question
     obtain ⟨_, _, c3, c4⟩ := opt_of_good macFn F _ hG (by rw [hq3]; simp) b mac hf d hd
     rw [hq1] at c3
@@ -775,7 +783,7 @@ theorem C10_decoded_table_of_run (cfg : Cfg) (hcfg : ServerSafety.CfgWF cfg) (tr
     · rw [g6, hmac]
   · have h3 := ServerContent.signed_nodata_final_of_run cfg tr now bufLen req hbuf hpay hp16 hr t mw r' question hrun
     intro r'' S hT v hvv hev b hb
-    obtain ⟨nowT, alg, key, kn, F, mac, e1, e2, e3, e4, e5, hf, hG, hts, he, hmac⟩ := h3 r'' S hT v hvv hev b hb
+    obtain ⟨nowT, alg, key, kn, F, mac, e1, e2, e3, e4, e5, hf, hG, hts, he, hmac, _⟩ := h3 r'' S hT v hvv hev b hb
     refine ⟨nowT, alg, key, kn, e1, e2, e3, e4, e5, fun d hd => ?_⟩
     obtain ⟨hq1, hq2, hq3⟩ := qBody_norecs (Spec.Server.specScanWith (catKind cfg) cfg.payload req).question
     obtain ⟨_, _, c3, c4⟩ := opt_of_good macFn F _ hG (by rw [hq3]; simp) b mac hf d hd
@@ -806,6 +814,75 @@ theorem C10_decoded_table_of_run (cfg : Cfg) (hcfg : ServerSafety.CfgWF cfg) (tr
     rw [r6]
     cases hed : (Spec.Server.specScanWith (catKind cfg) cfg.payload req).edns <;> rw [hed] at he <;>
       cases hw : F.edns <;> rw [hw] at he <;> simp at he ⊢
+
+open QV.ServerScan in
+/-- **the decoded TSIG record, field by field, and the header** — rows 1 and 2 of the table for a given
+    run.  Row 1 (rejected, the reply fits): RCODE = the table's (NOTAUTH 9 / FORMERR 1), AA and TC
+    clear; the last additional record is the TSIG record and the specification's RFC 8945 §4.2 reader
+    finds in its RDATA: the algorithm name of the reply mode, fudge 300, the request's original ID, the
+    table's error (16 / 17 / 18), time signed = the prepared RR's (the client's iff BADTIME), other data
+    = the server time iff BADTIME, and the MAC `finish` computed (empty for unsigned replies).  Row 2
+    (authenticated, no-data verdict `v`): RCODE of `v`, AA and TC clear; error 0, fudge 300, original
+    ID, time signed = now, no other data, MAC = `macFn` over the octets before the record. -/
+theorem C10_decoded_fields_of_run (cfg : Cfg) (tr : Transport) (now bufLen : Nat) (req : Bytes)
+    (hbuf : minBuf tr cfg.payload ≤ bufLen) (hpay : 512 ≤ cfg.payload) (hp16 : cfg.payload ≤ 65535)
+    (hr : (Spec.Server.specScanWith (catKind cfg) cfg.payload req).respond = true)
+    (t : ReadTsigRr) (mw : Bytes) (r' : Reader.Reader) (question : Option (WName × Nat × Nat))
+    (hrun : ServerContent.TsigRun cfg tr now bufLen req t mw r' question) :
+    (∀ nowT kn an rc mode rr, TimeSigned.tryFromUnix now = some nowT →
+      WName.parse t.keyName = some (kn, []) → WName.parse t.algorithm = some (an, []) →
+      tsigStopReply realHmac cfg.keys nowT t mw.toList kn an = some (rc, mode, rr) →
+      TsigFits (preTsigState cfg tr bufLen req) mode rr →
+      ∀ b, handleMessage cfg tr now bufLen req = .ok (some b) →
+        ∀ d, Spec.specDecodeMsg b = some d →
+          d.rcode = rc ∧ (rc = 9 ∨ rc = 1) ∧ d.aa = false ∧ d.tc = false ∧
+          ∃ e, (e = 16 ∨ e = 17 ∨ e = 18) ∧ rr = prepOf kn t nowT e ∧
+          ∃ rest o mac, d.ar = rest ++ [o] ∧ o.ty = 250 ∧ o.cls = 255 ∧ o.rawTtl = 0 ∧
+            Spec.Tsig.parseRdata o.rdata = some ⟨(tsigAlgName mode).labels, Spec.Tsig.nat48 rr.timeSigned,
+              300, mac, (ReadTsigRr.originalId t).toNat % 65536, e,
+              if e = 18 then nowT.asSlice else []⟩) ∧
+    (∀ r'' S, tsigAfter cfg now t mw r' (preTsigState cfg tr bufLen req) = (.ok (some r''), S) →
+      ∀ v, (v = Spec.Server.Verdict.formErr ∨ v = .notImp ∨ v = .refused ∨ v = .servFailZone) →
+        endVerdict (catKind cfg) req.size (Spec.Server.specScanWith (catKind cfg) cfg.payload req).question
+          r'.cursor ((req.getD 2 0).toNat / 8 % 16) = v →
+      ∀ b, handleMessage cfg tr now bufLen req = .ok (some b) →
+        ∃ nowT alg key kn, TimeSigned.tryFromUnix now = some nowT ∧
+          Algorithm.fromName t.algorithm = some alg ∧ findKey cfg.keys t.keyName alg = some key ∧
+          WName.parse t.keyName = some (kn, []) ∧ verifyRequest realHmac t mw.toList alg key.secret nowT = .ok () ∧
+          ∀ d, Spec.specDecodeMsg b = some d →
+            d.rcode = (Spec.Server.verdictRcode v).1 ∧ d.aa = false ∧ d.tc = false ∧
+            ∃ rest o, d.ar = rest ++ [o] ∧ o.ty = 250 ∧ o.cls = 255 ∧ o.rawTtl = 0 ∧
+              Spec.Tsig.parseRdata o.rdata = some ⟨(algName (toWriterAlg alg)).labels, Spec.Tsig.nat48 nowT.asSlice,
+                300, macFn (respTsig alg key kn t nowT)
+                  (signedPrefix req cfg.payload (Spec.Server.specScanWith (catKind cfg) cfg.payload req)
+                    (Spec.Server.verdictRcode v).1),
+                (ReadTsigRr.originalId t).toNat % 65536, 0, []⟩) := by
+  refine ⟨?_, ?_⟩
+  · have h3 := ServerContent.signed_error_final_of_run cfg tr now bufLen req hbuf hpay hp16 hr t mw r' question hrun
+    intro nowT kn an rc mode rr hnow hkn han hrep hfit b hb d hd
+    obtain ⟨F, mac, hf, hG, hts, _, _, hh⟩ := h3 nowT kn an rc mode rr hnow hkn han hrep hfit b hb
+    obtain ⟨w1, _, w3, w4⟩ := tsigStopReply_facts hrep (parse_wf han)
+    obtain ⟨hrc, e, he, hrr⟩ := ServerContent.tsigStopReply_prep hrep
+    obtain ⟨g1, g2, g3, rest, o, q1, q2, q3, q4, q5⟩ :=
+      ServerContent.tsig_fields_of_good F _ hG _ hts w1 w3 w4 _ hh b mac hf d hd
+    refine ⟨by rw [g1]; show rc % 16 = rc; omega, hrc, g2, g3, e, he, hrr, rest, o, mac.getD [], q1, q2, q3, q4, ?_⟩
+    rw [q5]
+    subst hrr
+    have e18 : Writer.XR_BADTIME = 18 := by decide
+    simp only [prepOf, e18]
+    congr 2
+    · rcases he with rfl | rfl | rfl <;> rfl
+  · have h3 := ServerContent.signed_nodata_final_of_run cfg tr now bufLen req hbuf hpay hp16 hr t mw r' question hrun
+    intro r'' S hT v hvv hev b hb
+    obtain ⟨nowT, alg, key, kn, F, mac, e1, e2, e3, e4, e5, hf, hG, hts, _, hmac, hh⟩ := h3 r'' S hT v hvv hev b hb
+    refine ⟨nowT, alg, key, kn, e1, e2, e3, e4, e5, fun d hd => ?_⟩
+    obtain ⟨l1, l2⟩ := prepOf_lengths kn t nowT 0
+    obtain ⟨g1, g2, g3, rest, o, q1, q2, q3, q4, q5⟩ :=
+      ServerContent.tsig_fields_of_good F _ hG _ hts (algName_wf _) l1 l2 _ hh b mac hf d hd
+    refine ⟨by rw [g1]; show (Spec.Server.verdictRcode v).1 % 16 = _; rcases hvv with rfl | rfl | rfl | rfl <;> rfl,
+      g2, g3, rest, o, q1, q2, q3, q4, ?_⟩
+    rw [q5, hmac]
+    rfl
 
 open QV.ServerScan in
 /-- **the decision table, decoded — one theorem.**  For a request whose scan reaches a well-formed TSIG
